@@ -1511,6 +1511,8 @@ def future_poll(ctx, args, ci, dt):
     if isinstance(fut, Opaque) and fut.tag == 'mutex-lock-future':
         ctx.assumptions.add('tokio::sync::Mutex::lock is polled uncontended: Ready(guard)')
         return Enum('Poll', 0, 'Ready', [Cell(Opaque('mutex-guard', fut.data))])
+    if isinstance(fut, Opaque) and fut.tag == 'ready-future':
+        return Enum('Poll', 0, 'Ready', [Cell(fut.data)])
     if isinstance(fut, Coroutine):
         return ctx.poll(fut)
     raise SegmentEnd('poll of %r' % (fut,))
